@@ -17,6 +17,21 @@ BUILT = {
         "process isolation."),
   design='DESIGN.md §4 C11',
   technique='deterministic simulation: seeded simulated process pool + fault injection, differential and attribution oracles'),
+
+ 'C13': dict(
+  text=("Seeded search over histories (<=10 operations) on live Survey "
+        "objects - explicit assignments, add_noise in all variants, select, "
+        "copy, dict and file round trips with injected write faults, restart "
+        "from file, misfit through a tiny real Simulation, permutation - "
+        "checked after every step against a reference model that changes "
+        "only on explicit assignment, with the documented formulas "
+        "recomputed by the checker. RNG, clock and file I/O behind seams."),
+  note=("Trusted: the reference model's reading of the documented formulas; "
+        "the noise-form oracle does not know the random draws (it checks the "
+        "algebraic form), so a wrong distribution with the right form is not "
+        "seen."),
+  design='DESIGN.md §4 C13',
+  technique='deterministic simulation: seeded operation/fault histories against an executable reference model'),
 }
 
 NA = {
